@@ -650,10 +650,10 @@ attrsLoop:
 						var appended bool
 						if htmlAttr.Key == "rel" && (addNoFollow || addNoReferrer) {
 
-							if addNoFollow && !strings.Contains(htmlAttr.Val, "nofollow") {
+							if addNoFollow && !relHasToken(htmlAttr.Val, "nofollow") {
 								htmlAttr.Val += " nofollow"
 							}
-							if addNoReferrer && !strings.Contains(htmlAttr.Val, "noreferrer") {
+							if addNoReferrer && !relHasToken(htmlAttr.Val, "noreferrer") {
 								htmlAttr.Val += " noreferrer"
 							}
 							noFollowFound = addNoFollow
@@ -727,7 +727,7 @@ attrsLoop:
 						for _, htmlAttr := range cleanAttrs {
 							var appended bool
 							if htmlAttr.Key == "rel" {
-								if strings.Contains(htmlAttr.Val, "noopener") {
+								if relHasToken(htmlAttr.Val, "noopener") {
 									noOpenerAdded = true
 									tmpAttrs = append(tmpAttrs, htmlAttr)
 								} else {
@@ -1001,6 +1001,21 @@ func linkable(elementName string) bool {
 	default:
 		return false
 	}
+}
+
+// relHasToken returns true if the space separated rel value contains the
+// link type, compared the way browsers do (ASCII case-insensitive tokens split
+// on ASCII whitespace)
+func relHasToken(rel string, linkType string) bool {
+	tokens := strings.FieldsFunc(rel, func(r rune) bool {
+		return r == ' ' || r == '\t' || r == '\n' || r == '\f' || r == '\r'
+	})
+	for _, token := range tokens {
+		if strings.EqualFold(token, linkType) {
+			return true
+		}
+	}
+	return false
 }
 
 // stringInSlice returns true if needle exists in haystack
